@@ -1958,6 +1958,12 @@ impl Merger {
         // borrow checker (the stream needs to be `sync` since it crosses an await point)
         let mut deleted_row_ids = self.deleted_rows.lock().unwrap();
 
+        if self.params.when_matched == WhenMatched::Fail && in_both.true_count() > 0 {
+            return Err(datafusion::error::DataFusionError::Execution(
+                "Merge insert failed: found matching row in target table".to_string(),
+            ));
+        }
+
         if self.params.when_matched != WhenMatched::DoNothing {
             let mut matched = arrow::compute::filter_record_batch(&batch, &in_both)?;
 
